@@ -108,6 +108,9 @@ let () =
   register "stlreadfail" (fun r ->
     let ign = rbool r in let d = rstr r in let k = nat_of_int (rint r) in let cs = rlist (fun r -> nat_of_int (rint r)) r in
     pres (fun _ -> ()) (read_stl_fail_at ign d k cs));
+  register "stlreadfailwd" (fun r ->   (* the failing Read delivers the last bytes with its error *)
+    let ign = rbool r in let d = rstr r in let k = nat_of_int (rint r) in let cs = rlist (fun r -> nat_of_int (rint r)) r in
+    pres (fun _ -> ()) (read_stl_fail_at_wd ign d k cs));
   register "stlwriteto" (fun r ->
     let now = rstr r in let md = ropt_with rwmeta r in let items = rlist rwitem r in let k = nat_of_int (rint r) in
     let res = write_stl_to now md items (Fail_at k) in
